@@ -62,6 +62,12 @@ func VsymC03() {
 	store := &c03Store{goodType: goodType, goodName: goodName, goodCert: goodCert, badType: badType, badName: badName, withBad: withBad, filler: unrelated,
 		fillerEverywhere: vr.Choice("fillerEverywhere", 2) == 1}
 
+	// another certificate with the very same subject (a re-issued root after a key roll-over) is another certificate
+	if store.fillerEverywhere && goodCert != unrelated && vr.Choice("fillerSharesSubject", 2) == 1 {
+		unrelated.Subject = goodCert.Subject
+		unrelated.RawSubject = goodCert.RawSubject
+	}
+
 	doc := &trustpolicy.OCIDocument{Version: "1.0", TrustPolicies: []trustpolicy.OCITrustPolicy{
 		{Name: "A", RegistryScopes: []string{"reg.io/repo"}, SignatureVerification: trustpolicy.SignatureVerification{VerificationLevel: "strict"}, TrustStores: listA, TrustedIdentities: []string{"*"}},
 		{Name: "B", RegistryScopes: []string{"reg.io/other"}, SignatureVerification: trustpolicy.SignatureVerification{VerificationLevel: "strict"}, TrustStores: listB, TrustedIdentities: []string{"*"}},
